@@ -180,7 +180,7 @@ def explore(ctx):
     if not any(p['code'] for p in o.passes):
         ctx.broke('harness', 'error-exit scenario', 'the run did not end by an error')
     ctx.sample({'real_pool': 'error-exit', 'tests_started': len(o.log), 'alive_after': o.alive, 'exit': [p['code'] for p in o.passes]})
-    reals = REAL_SCENARIOS if not ctx.quick() else REAL_SCENARIOS[:2]
+    reals = REAL_SCENARIOS if not ctx.quick() else REAL_SCENARIOS[1:3]      # 'mixed' and 'all-timeout' (a round without a winner)
     for tag, sc in reals:
         for fork in ((False, True) if tag != 'two-files' else (False,)):
             o = real_case(ctx, sc, tag, fork)
